@@ -20,7 +20,7 @@ import (
 
 func moreOracles(r *e2e, t *tracker) []Oracle {
 	c02 := &oC02{r: r, t: t}
-	out := []Oracle{&oC03{r: r}, &oC14{r: r, acked: map[uint64]string{}}}
+	out := []Oracle{&oC03{r: r}, &oC14{r: r, acked: map[uint64]string{}}, newOC13(r)}
 	out = append(out, moreE2EOracles(r, t)...)
 	if f, err := os.OpenFile(filepath.Join(r.in.JobDir, fmt.Sprintf("exch.%d.jsonl", r.in.Phase)), os.O_CREATE|os.O_WRONLY|os.O_APPEND, 0o644); err == nil {
 		out = append(out, &exchWriter{r: r, t: t, c02: c02, f: f, done: map[*exchange]bool{}})
